@@ -218,6 +218,35 @@ CHECKS["C18"] = dict(
          "wrong degrees of freedom or a broken p-value are detectable",
     design_ref="DESIGN.md section 2, C18")
 
+CHECKS["C11"] = dict(
+    technique="runtime monitoring: offline checker of the recorded event log "
+              "against the error contract transcribed from the manuals; "
+              "before/after state digests; twin runs",
+    text="Every failing event of failure-rich generated histories is checked "
+         "against the documented failure value, errno class and error-"
+         "function contract (exactly one single-line message, silent "
+         "queries silent, nothing on success); calls refused for their "
+         "arguments must leave dump digests unchanged (twin run without the "
+         "refused calls for the opaque vnacal_new_t); late failures must "
+         "leave objects usable (failed solve -> add standards -> solve "
+         "corrects the device).",
+    note="trusted: pylib/errtable.py transcription of the six manuals; where "
+         "the manual or the project's own tests leave errno open (property "
+         "queries on a null element) either outcome is accepted",
+    design_ref="DESIGN.md section 2, C11")
+CHECKS["C16"] = dict(
+    technique="runtime monitoring: reference-model monitor (pylib/calmodel.py) "
+              "over generated handle/calibration histories; twin runs for "
+              "deletion-while-in-use",
+    text="Histories of depth ~100 over parameters, several vnacal_new_t, "
+         "calibrations (add, replace by name, delete), queries and property "
+         "calls are compared with an abstract table model after every "
+         "operation; a handle deleted while in use must leave the solve "
+         "bit-identical to the twin run without the deletion and be refused "
+         "for new use.",
+    note="the numbering policy of handles and free slots is not asserted",
+    design_ref="DESIGN.md section 2, C16")
+
 NOT_YET = {}
 
 
